@@ -177,7 +177,8 @@ def run(ck):
     for i, (kind, line, var, f) in enumerate(reqs):
         a = L.classify(impl[i]) if i < len(impl) else "missing"
         m = model[i] if i < len(model) else "missing"
-        distinct.add(a)
+        if not (a.startswith("ok ") and "(" not in a):
+            distinct.add(a)       # a bare leaf is trivial
         if a.startswith("err "):
             hist["err"] += 1
             errk[a[4:]] = errk.get(a[4:], 0) + 1
@@ -259,7 +260,7 @@ def run(ck):
     ]
     return ck.finish({
         "evaluations": len(reqs), "distinct_nontrivial": len(distinct),
-        "rule": "distinct = distinct canonical implementation answers (rendered derivative / error class / value bits)",
+        "rule": "requests = corpus + every rule of the dumped table on its own + directed values + seeded random formulas; distinct = distinct canonical implementation answers (rendered derivative / error class / value bits); non-trivial = not a bare leaf",
         "exhaustive": False, "disagreements": disagreements,
         "traces_validated_against_impl": len(reqs) - hist["skipped-by-model"],
         "streams": {"corpus": ncorpus, "rules": sum(1 for r in reqs if r[0] == "rule"), "directed": sum(1 for r in reqs if r[0] == "directed"), "derive": n_d, "unsupported": n_u, "value": n_e},
